@@ -11,7 +11,7 @@
 //!   m <hex bincode>            one per machine when every line parses with the Rust API
 //!   orc 0 0
 //!   start <outnull> <fp bits> <fb bits>
-//!   o rc <n> / o ref <utf8> <parse> <fw> / o out <0|1> / o nm <n|na> <nm(NULL)>
+//!   o rc <n> / o ref <utf8> <parse> <fw> <strict parse> / o out <0|1> / o nm <n|na> <nm(NULL)>
 //!   orc 0 0
 //!   ev <nulls:this,events,actions,count> <guard> <pat> <name:machine>*
 //!   o rc <n> / o count <n|unset> / o evraw <hex> / o mem <hex> / o A.. / o AT..   (reference)
@@ -118,6 +118,16 @@ fn reference_parse(mstr: &[u8]) -> (bool, Option<Vec<Machine>>) {
     (true, Some(ms))
 }
 
+/// The literal reading of "newline-separated machine strings": every piece between LFs (a
+/// trailing LF yields a final empty piece, a CR stays part of its piece) must be accepted by
+/// `Machine::from_str`.  Reported next to the `str::lines` reading for the record.
+fn strict_parse_ok(mstr: &[u8]) -> bool {
+    match std::str::from_utf8(mstr) {
+        Ok(s) => s.is_empty() || s.split('\n').all(|p| Machine::from_str(p).is_ok()),
+        Err(_) => false,
+    }
+}
+
 type RefFw = Framework<Vec<Machine>, ScriptRng, VInstant>;
 
 /// Run one session against the real C API and return its protocol text.
@@ -171,7 +181,14 @@ pub fn run_case(c: &FfiCase) -> String {
                     None => "na",
                 };
                 let _ = writeln!(out, "o rc {}", rc);
-                let _ = writeln!(out, "o ref {} {} {}", utf8 as u8, if !utf8 { "na" } else if parsed.is_some() { "ok" } else { "bad" }, fw_ref);
+                let _ = writeln!(
+                    out,
+                    "o ref {} {} {} {}",
+                    utf8 as u8,
+                    if !utf8 { "na" } else if parsed.is_some() { "ok" } else { "bad" },
+                    fw_ref,
+                    if !utf8 { "na" } else if strict_parse_ok(&c.mstr) { "ok" } else { "bad" }
+                );
                 let _ = writeln!(out, "o out {}", written as u8);
                 let nm_null = unsafe { maybenot_num_machines(std::ptr::null_mut()) };
                 if written {
